@@ -170,8 +170,14 @@ class DefGen:
                     self.count("field:tagged")
                     if f.get("type") == "bool" and f["ignorable"] and "default" not in f:
                         f["default"] = "false"     # the generator emits invalid Python otherwise (see DESIGN)
-                    if f.get("default") == "null" and "versions" in f:
-                        f["nullableVersions"] = f["versions"]
+                    if f.get("type") == "records" and "default" not in f and r.random() < 0.8:
+                        # kio: "Tagged record fields are not supported" without an explicit (null) default
+                        # (get_implicit_default raises NotImplementedError; the model refuses likewise:
+                        # GenPlan.implicit_opt) - mostly avoided, sometimes kept to exercise the refusal
+                        f["default"] = "null"
+                    if f.get("default") == "null":
+                        # null default needs nullability wherever the field exists (versions falls back to taggedVersions)
+                        f["nullableVersions"] = f.get("versions", f["taggedVersions"])
             if r.random() < 0.15 and "ignorable" not in f:
                 f["ignorable"] = True
             out.append(f)
